@@ -499,6 +499,13 @@ impl DataLoader for MemLoader {
     }
 }
 
+/// Verification hook (only with `--cfg rten_verif`): exposes the private
+/// allow-list predicate to an external harness.
+#[cfg(rten_verif)]
+pub fn verif_is_allowed_external_data_path(path: &Path) -> bool {
+    is_allowed_external_data_path(path)
+}
+
 #[cfg(test)]
 mod tests {
     use std::collections::HashMap;
